@@ -440,9 +440,12 @@ def resolve_ties(ctx: C.Ctx, lines, impl, inputs) -> None:
         if item[0] == "probes":
             _, plines, loads, root, after = item
             predicted: List[str] = []
-            for _ in plines:
+            loaded = set()          # CMapDB caches a CMap by name once it has been loaded successfully
+            for n_load in loads:
                 reply = outs[k]
                 k += 1
+                if n_load in loaded:
+                    continue
                 probes = [] if reply == "-" else [bytes.fromhex(x).decode("utf-8", "surrogateescape") for x in reply.split(",")]
                 # the first probe that exists (in the sandbox snapshot or on the real cmap dir) is opened
                 for p in probes:
@@ -451,6 +454,7 @@ def resolve_ties(ctx: C.Ctx, lines, impl, inputs) -> None:
                         # python resolves the path physically; every intermediate directory must exist
                         if physically_exists(p, after):
                             predicted.append(q)
+                            loaded.add(n_load)
                             break
             ctx.branch("tie:cmap-opens-predicted=%d" % len(predicted))
             if predicted != impl[idx]:
